@@ -3,7 +3,7 @@ import lib
 from lib import cstr, cN, clist
 import c14
 
-VALS = ["x", " y ", "a b", "{{a|q}}", " {{a|r}} ", "{{sp}}", "p{{sp}}q", "{{#if:1|t|f}}", "[[l|t]]", "\nz", "{{star}}", "0", "é"]
+VALS = ["x", " y ", "a b", "{{a|q}}", " {{a|r}} ", "{{sp}}", "p{{sp}}q", "{{#if:1|t|f}}", "[[l|t]]", "\nz", "{{star}}", "0", "é", "a<nowiki/>b", "<nowiki>''x''</nowiki>", "<nowiki/>"]
 NAMES = ["k", "K two", "z", "1", "2", "3", "x"]
 FRAGS = ["text", "{{a|x}}", "{{a|{{a|y}}}}", "{{{1}}}", "{{{1|d}}}", "{{nosuch|q}}", "{{#if:x|y|z}}", "{{#switch:b|a=1|b=2}}",
          "<nowiki>{{a}}</nowiki>", "[[link|{{a|z}}]]", "{{b|p|x=q}}", "{{lc:ABC}}", "{{PAGENAME}}", "a {{sp}} b", "{{star}}",
